@@ -15,13 +15,13 @@ Definition lenN {A} (l : list A) : N := N.of_nat (length l).
 (** Projected errors (the harness projects Go errors onto the same enum). *)
 Inductive err :=
 | ENotFound | EExists | EKeyTooLong | EDecode | EUser | EUnordered | ECancel
-| EOther | EPanic.
+| EBusy | EOther | EPanic.
 
 Definition err_eqb (a b : err) : bool :=
   match a, b with
   | ENotFound, ENotFound | EExists, EExists | EKeyTooLong, EKeyTooLong
   | EDecode, EDecode | EUser, EUser | EUnordered, EUnordered | ECancel, ECancel
-  | EOther, EOther | EPanic, EPanic => true
+  | EBusy, EBusy | EOther, EOther | EPanic, EPanic => true
   | _, _ => false
   end.
 
